@@ -8,6 +8,7 @@ import Driver.Http
 import Driver.Faults
 import Driver.Parse
 import Driver.Rx
+import Driver.Rxm
 /-!
   Line-protocol driver.  One request per line:
 
@@ -65,8 +66,10 @@ def engineJudge (prop eng : String) (args obs : List String) : Bool :=
   | "nopanic" => obs.all (fun t => t == "cfg=ok" || t == "cfg=err" || t == "run=ok" || t == "run=-")   -- never PANIC / HANG
   | "conc" =>
     -- C06 monitor: no transaction differed from its sequential outcome, no race report, no panic
-    obs.contains "mismatch=0" && obs.contains "races=0" && obs.contains "panics=0" &&
-      (match Eng.concModel args with | some m => m == " ".intercalate obs | none => true)
+    -- (a configuration both sides reject — a directive naming no rule — has nothing to run)
+    (obs == ["CONFIGERR"] && Eng.concModel args == some "CONFIGERR") ||
+    (obs.contains "mismatch=0" && obs.contains "races=0" && obs.contains "panics=0" &&
+      (match Eng.concModel args with | some m => m == " ".intercalate obs | none => true))
   | "tfid" => (match Eng.tfidModel args with | some m => m == " ".intercalate obs | none => false)
   | "memo" => Memo.judge args obs
   | "iso" => (match Eng.isoModel args with | some m => m == " ".intercalate obs | none => !obs.contains "PANIC")
@@ -87,6 +90,14 @@ def handleRx (args obs : List String) : String :=
   | none => s!"X {p}"
   | some m => if m == proj then (if ok then "A" else s!"V 0 {m}") else s!"D {p} {m}"
 
+/-- `rxm` lines: the model predicts the match bits of the ASCII inputs -/
+def handleRxm (args obs : List String) : String :=
+  let (m, ag, ok) := Rxm.judgeLine args obs
+  let p := if ok then "1" else "0"
+  match m with
+  | none => s!"X {p}"
+  | some m => if ag then (if ok then "A" else s!"V 0 {m}") else s!"D {p} {m}"
+
 def handle (prop line : String) : String :=
   let toks := (line.splitOn " ").filter (· != "")
   match toks with
@@ -95,6 +106,7 @@ def handle (prop line : String) : String :=
     let (args, obs) := splitArrow rest
     if eng == "fault" then handleFault args obs else
     if eng == "rxpf" then handleRx args obs else
+    if eng == "rxm" then handleRxm args obs else
     let p := if engineJudge prop eng args obs then "1" else "0"
     match engineModel eng args with
     | none => s!"X {p}"
